@@ -167,6 +167,18 @@ def gen_cases(ctx):
     # single domains through pickle / deepcopy (also twice, also via the codomain)
     for i in range(30 if ctx.quick else 200):
         cases.append(gen_dround(rng, i))
+    # pickles made here, loaded in fresh interpreters with other hash seeds
+    for hs in ([1, 4242] if ctx.quick else [1, 2, 77, 4242, 99999]):
+        items = []
+        for _ in range(10):
+            q = int(rng.integers(0, 4))
+            if q == 3:
+                items.append(["md", {str(nm): [int(x) for x in rng.integers(0, len(SPELLINGS), size=int(rng.integers(0, 3)))]
+                                     for nm in rng.permutation(["a", "b", "c"])[:int(rng.integers(1, 4))]}])
+            else:
+                k = 1 if q == 0 else int(rng.integers(0, 4))
+                items.append(["dom" if q == 0 else "dt", [int(x) for x in rng.integers(0, len(SPELLINGS), size=k)]])
+        cases.append({"kind": "xproc", "hashseed": hs, "items": items})
     # DOF spaces, cached power-index arrays
     for i in range(4 if ctx.quick else 20):
         cases.append({"kind": "dof", "weights": [float(x) for x in rng.choice(DYAD + ODD, size=int(rng.integers(1, 7)))]})
@@ -508,6 +520,8 @@ def run_case(case):
             obs["retries"] = [attempt(h), attempt(mk_space(case["h"]))]
         elif k == "dround":
             obs.update(run_dround(case))
+        elif k == "xproc":
+            obs.update(run_xproc(case))
         elif k == "qhist":
             obs.update(run_qhist(case))
         elif k == "dof":
@@ -640,6 +654,14 @@ def coq_check_(case, obs):
         return " && ".join("(nat_list_eqb (pc_classes %s) %s)" % (cnats(keys), cnats(obs[c])) for c in ("classes", "classes_k", "classes_v"))
     if k == "qhist":
         return qhist_terms(case, obs)
+    if k == "xproc":
+        if not all(all(f) for f in obs["flags"]):
+            return "false"
+        table, ops = {}, []
+        for c in obs["codes"]:            # per item: load (= make in the child's empty cache), make, reload
+            code = table.setdefault(c, len(table))
+            ops += ["Make _ [%d%%nat]" % code] * 3
+        return "nat_list_eqb (dt_classes %s) %s" % (C.clist(ops), cnats(obs["classes"]))
     if k == "dround":
         # a round trip is `Pickle` in the hash-consing model (same description, hence same canonical tuple),
         # and the copy's geometry is the pure function of the ORIGINAL constructor arguments
@@ -868,6 +890,19 @@ def direct_failure_(case, obs):
     k = case["kind"]
     if k == "qhist":
         return qhist_failure(case, obs)
+    if k == "xproc":
+        if obs["error"]:
+            return "unpickling in a fresh process (PYTHONHASHSEED=%s) failed: %s" % (case["hashseed"], obs.get("message"))
+        for i, f in enumerate(obs["flags"]):
+            if not all(f):
+                return "object pickled here and loaded in a process with PYTHONHASHSEED=%s: equal / same hash / same description / same canonical tuple = %r" % (case["hashseed"], f)
+        cl, codes = obs["classes"], [c for c in obs["codes"] for _ in range(3)]
+        for i in range(len(cl)):
+            for j in range(i):
+                if (cl[i] == cl[j]) != (codes[i] == codes[j]):
+                    return "process with PYTHONHASHSEED=%s: loaded / made objects %d and %d: identical = %s, equal description = %s" % (
+                        case["hashseed"], j, i, cl[i] == cl[j], codes[i] == codes[j])
+        return None
     if k == "dround":
         if obs["error"]:
             return "%s round trip of a domain raised %s (%s)" % (case["how"], obs["error"], obs.get("message"))
@@ -924,6 +959,66 @@ def direct_failure_(case, obs):
     if k.startswith("hist_"):
         return history_failure(case, obs)
     return None
+
+
+XPROC = r"""
+import sys, json, pickle
+import nifty.cl as ift
+from harness.props import c08
+c08.quiet()
+items = json.load(sys.stdin)
+objs, flags = [], []
+for it in items:
+    t = pickle.loads(bytes.fromhex(it["blob"]))                  # made in ANOTHER process (other hash seed)
+    doms = tuple(c08.mk_space(s) for s in it["specs"])           # made here
+    if it["what"] == "dom":
+        d = pickle.loads(bytes.fromhex(it["dblob"]))
+        flags.append([bool(d == doms[0] and doms[0] == d), hash(d) == hash(doms[0]), c08.desc_key(d) == c08.desc_key(doms[0]),
+                      ift.DomainTuple.make((d,)) is ift.DomainTuple.make((doms[0],))])
+    if it["what"] == "md":
+        f = ift.MultiDomain.make({k: tuple(c08.mk_space(s) for s in v) for k, v in it["dict"].items()})
+    else:
+        f = ift.DomainTuple.make(doms)
+    flags.append([bool(t == f and f == t), hash(t) == hash(f)])
+    objs += [t, f, pickle.loads(pickle.dumps(t))]
+print(json.dumps({"classes": [next(j for j in range(i + 1) if objs[j] is objs[i]) for i in range(len(objs))], "flags": flags}))
+"""
+
+
+def run_xproc(case):
+    """Pickles made in THIS process (hashes already cached in the objects), loaded in a fresh interpreter
+    with a different PYTHONHASHSEED, next to freshly made equal objects: the child's history is
+    [load_0, make_0, reload_0, load_1, ...] starting from an empty cache."""
+    ift = quiet()
+    items, codes = [], []
+    for entry in case["items"]:
+        if entry[0] == "md":
+            dct = {k: tuple(mk_space(SPELLINGS[i]) for i in v) for k, v in entry[1].items()}
+            for v in dct.values():
+                [hash(x) for x in v]
+            o = ift.MultiDomain.make(dct)
+            hash(o)
+            items.append({"what": "md", "specs": [], "dict": {k: [SPELLINGS[i] for i in v] for k, v in entry[1].items()}, "blob": pickle.dumps(o).hex()})
+            codes.append(("md",) + tuple(sorted((k, tuple(desc_key(x) for x in v)) for k, v in dct.items())))
+        else:
+            specs = [SPELLINGS[i] for i in entry[1]]
+            doms = tuple(mk_space(sp) for sp in specs)
+            [hash(x) for x in doms]                  # the cached hash travels inside the pickle
+            o = ift.DomainTuple.make(doms)
+            hash(o)
+            it = {"what": entry[0], "specs": specs, "blob": pickle.dumps(o).hex()}
+            if entry[0] == "dom":
+                it["dblob"] = pickle.dumps(doms[0]).hex()
+            items.append(it)
+            codes.append(("dt",) + tuple(desc_key(x) for x in doms))
+    env = dict(os.environ, PYTHONHASHSEED=str(case["hashseed"]))
+    p = subprocess.run([sys.executable, "-c", XPROC], input=json.dumps(items), stdout=subprocess.PIPE, stderr=subprocess.PIPE,
+                       text=True, env=env, timeout=900)
+    if p.returncode != 0:
+        return {"error": "ChildFailed", "message": p.stderr[-300:]}
+    r = json.loads(p.stdout.strip().splitlines()[-1])
+    r["codes"] = codes
+    return r
 
 
 SUBPROC = r"""
@@ -1022,13 +1117,13 @@ class C08(C.Check):
             if (k == "lm" and c["lmax"] >= 1) or (k in ("rgtab", "rgtab_q") and int(np.prod(c["shape"])) >= 3) or \
                (k == "rggeom" and int(np.prod(c["shape"])) >= 2) or (k == "power" and o.get("hsize", 0) >= 3) or \
                (k == "qhist" and sum(1 for op in c["ops"] if op[0] in ("useful", "power_useful")) >= 1 and len(c["ops"]) >= 4) or \
-               (k == "dof" and len(c["weights"]) >= 2) or (k == "dround") or \
+               (k == "dof" and len(c["weights"]) >= 2) or (k == "dround") or (k == "xproc") or \
                (k == "pcache" and len(set(o.get("classes", []))) >= 2 and len(set(o.get("classes", []))) < len(o.get("classes", []))) or \
                (k.startswith("hist_") and len(set(o.get("classes", []))) >= 2 and len(set(o.get("classes", []))) < len(o.get("classes", []))):
                 nontrivial.add(json.dumps(c, sort_keys=True))
         res.coverage.update({
             "evaluations": len(self.cases), "distinct_nontrivial": len(nontrivial),
-            "rule": "LMSpace all lmax<=%d,mmax<=lmax; harmonic RGSpace tables 1-D sizes 1-9, 2-D up to 6x6, 3-D up to 4^3 (equal and unequal distances, dyadic and non-dyadic); RG geometry 1-3 axes sizes 1-9 with None/scalar/tuple distances, both kinds; PowerSpace over RG 1-D/2-D and LM partners with natural, arbitrary ascending, at-k-value, linear and logarithmic bounds; DomainTuple/MultiDomain histories of make / make(obj) / pickle over a pool of %d domain spellings; histories of repeated get_unique_k_lengths / get_k_length_array / useful_binbounds / PowerSpace queries on ONE domain object (anisotropic and isotropic non-square RG up to 6x10, 1-D, LM) compared with a fresh object and the model; non-square equal-distance grids up to 6x10 / 4x6x9 in both axis orders; DOFSpace; identity classes of the cached power-index arrays; single domains of every class through pickle / deepcopy / double pickle (RG sizes incl. 49, 98, 103, 107 and non-dyadic distances, both kinds, also via the codomain): equality, hash, description, bit-exact geometry, canonical DomainTuple; every PowerSpace request repeated (retry after rejection, fresh equal partner); non-trivial = more than a couple of pixels, resp. a history with both identical and distinct results; distinct by full case" % (5 if ctx.quick else 8, len(SPELLINGS)),
+            "rule": "LMSpace all lmax<=%d,mmax<=lmax; harmonic RGSpace tables 1-D sizes 1-9, 2-D up to 6x6, 3-D up to 4^3 (equal and unequal distances, dyadic and non-dyadic); RG geometry 1-3 axes sizes 1-9 with None/scalar/tuple distances, both kinds; PowerSpace over RG 1-D/2-D and LM partners with natural, arbitrary ascending, at-k-value, linear and logarithmic bounds; DomainTuple/MultiDomain histories of make / make(obj) / pickle over a pool of %d domain spellings; histories of repeated get_unique_k_lengths / get_k_length_array / useful_binbounds / PowerSpace queries on ONE domain object (anisotropic and isotropic non-square RG up to 6x10, 1-D, LM) compared with a fresh object and the model; non-square equal-distance grids up to 6x10 / 4x6x9 in both axis orders; DOFSpace; identity classes of the cached power-index arrays; single domains of every class through pickle / deepcopy / double pickle (RG sizes incl. 49, 98, 103, 107 and non-dyadic distances, both kinds, also via the codomain): equality, hash, description, bit-exact geometry, canonical DomainTuple; every PowerSpace request repeated (retry after rejection, fresh equal partner); pickles of DomainTuples / MultiDomains / single domains (hash already cached) loaded in fresh interpreters with different PYTHONHASHSEED next to freshly made equal objects; non-trivial = more than a couple of pixels, resp. a history with both identical and distinct results; distinct by full case" % (5 if ctx.quick else 8, len(SPELLINGS)),
             "samples": [{"case": c} for c in self.cases[40:43]],
             "input_distribution": {"by_kind": kinds, "power_rejected": sum(1 for c, o in zip(self.cases, self.obs) if c["kind"] == "power" and o["error"] == "ValueError")},
             "disagreements": len(bad), "exhaustive": False,
